@@ -1,4 +1,5 @@
 import RtcVerif.Model.C02Loop
+import RtcVerif.Model.C04Json
 import RtcVerif.Model.C02KeepSoft
 import RtcVerif.Proofs.C04Store
 import RtcVerif.Proofs.C02Loop
